@@ -19,7 +19,8 @@ SLOT = "metrique::slot::"
 def run(ctx):
     F = ctx.facts("dbg")
     # ------------------------------------------------------------------ R13.1
-    gd = [b for b in F.all_bodies(MQ) if b.impl and (b.impl.get("trait") or "").endswith("::Drop") and "slot::SlotGuard" in b.path]
+    # (the public type by its name: it may be defined in a private submodule behind a re-export)
+    gd = [b for b in F.all_bodies(MQ) if b.impl and (b.impl.get("trait") or "").endswith("::Drop") and ((b.impl.get("self_head") or {}).get("adt") or "").endswith("::SlotGuard")]
     ctx.floor("R13.1", "slot guard destructors", len(gd), 1)
     for b in gd:
         key = fnkey(b)
